@@ -157,12 +157,22 @@ Definition check (c : case) : bool :=
       Bool.eqb (match build_top g t with Some _ => true | None => false end) impl_ok
   | KRead g t bs impl =>
       match build_top g t with
-      | Some c => cres_eqb (cres_of (c_read (fuel_for bs) c (zero_of (top_type t)) bs)) impl
+      | Some c =>
+        (* out of evaluation fuel (only collections of zero-width items with a declared
+           count far above the input length get there, by SafeP): no verdict on this case *)
+        match c_read (fuel_for bs) c (zero_of (top_type t)) bs with
+        | Fuel => true
+        | o => cres_eqb (cres_of o) impl
+        end
       | None => false
       end
   | KSkip g t bs impl =>
       match build_top g t with
-      | Some c => ires_eqb (ires_of (fun _ => 0) (c_skip (fuel_for bs) c bs)) impl
+      | Some c =>
+        match c_skip (fuel_for bs) c bs with
+        | Fuel => true
+        | o => ires_eqb (ires_of (fun _ => 0) o) impl
+        end
       | None => false
       end
   | KWrite g t v impl want =>
